@@ -93,7 +93,8 @@ type Interp struct {
 	Stdin    []byte       // input for read()
 	Out      bytes.Buffer // output of write()
 	Budget   int64        // steps allowed per Eval, <= 0 is unlimited
-	MaxDepth int          // call nesting limit
+	MaxDepth int          // call nesting limit, exceeding it is a "budget" error
+	MaxLive  int          // limit of simultaneously live coroutines, exceeding it is a "budget" error
 	Steps    int64        // total evaluated nodes
 
 	// coverage counters
@@ -107,11 +108,12 @@ type Interp struct {
 	main     *coro
 	cur      *coro
 	limit    int64
+	live     int // coroutines whose goroutine has not ended
 }
 
 // New creates a session with the builtins bound.
 func New() *Interp {
-	in := &Interp{MaxDepth: 100000, globals: map[string]Value{}, pristine: map[string]bool{}}
+	in := &Interp{MaxDepth: 100000, MaxLive: 10000, globals: map[string]Value{}, pristine: map[string]bool{}}
 	in.main = &coro{}
 	in.cur = in.main
 	in.loadBuiltins()
@@ -492,11 +494,16 @@ func (in *Interp) spawn(expr node.Type, a *activation) *coro {
 		top := me.calls[len(me.calls)-1]
 		co.calls = append(co.calls, call{name: top.name, fn: top.fn, act: act})
 	}
+	if in.live >= in.MaxLive {
+		in.fail(ErrBudget)
+	}
 	in.Coroutines++
+	in.live++
 	co.next, co.stop = iter.Pull(func(yield func(Value) bool) {
 		co.yield = yield
 		defer func() {
 			co.done = true
+			in.live--
 			switch r := recover().(type) {
 			case nil, abandoned:
 			case *RunError:
